@@ -46,6 +46,10 @@ struct Spec {
     uv: bool,
     prf: bool,
     pin_auth: bool,
+    /// length of the client data hash (opaque to the authenticator)
+    cdh_len: usize,
+    /// makeCredential only: the plain hmac-secret request flag
+    hmac_secret_flag: Option<bool>,
 }
 
 fn gen(seed: u64, idx: u64) -> Spec {
@@ -92,13 +96,19 @@ fn gen(seed: u64, idx: u64) -> Spec {
         uv: rng.bool(),
         prf: rng.chance(1, 3),
         pin_auth: rng.chance(1, 12),
+        cdh_len: *rng.pick(&[32usize, 32, 32, 32, 0, 1, 3, 4, 20, 48]),
+        hmac_secret_flag: match rng.below(8) {
+            0 => Some(true),
+            1 => Some(false),
+            _ => None,
+        },
     }
 }
 
 fn spec_json(s: &Spec) -> Value {
     json!({"op": format!("{:?}", s.op), "store": format!("{:?}", s.store), "config": s.cfg.json(), "capability": format!("{:?}", s.disc),
         "uv_outcome": format!("{:?}", s.uv_outcome), "verification_capability": s.ver_cap, "rp": s.rp, "seeded_credentials": s.n_seeded,
-        "list": s.list, "algs": s.algs, "rk": s.rk, "up": s.up, "uv": s.uv, "prf": s.prf, "pin_auth": s.pin_auth})
+        "list": s.list, "algs": s.algs, "rk": s.rk, "up": s.up, "uv": s.uv, "prf": s.prf, "pin_auth": s.pin_auth, "client_data_hash_len": s.cdh_len, "hmac_secret_flag": s.hmac_secret_flag})
 }
 
 pub fn describe(args: &Args, idx: u64) -> CaseDesc {
@@ -173,13 +183,13 @@ where
         }
         OpKind::Make => {
             let exclude = s.list.as_ref().map(|l| l.iter().map(|i| descriptor(ids.get(*i).map(|v| v.as_slice()).unwrap_or(&[0xEE; 32]))).collect());
-            let ext = s.prf.then(|| ctap2::make_credential::ExtensionInputs {
-                hmac_secret: None,
+            let ext = (s.prf || s.hmac_secret_flag.is_some()).then(|| ctap2::make_credential::ExtensionInputs {
+                hmac_secret: s.hmac_secret_flag,
                 hmac_secret_mc: None,
-                prf: Some(ctap2::extensions::AuthenticatorPrfInputs { eval: Some(ctap2::extensions::AuthenticatorPrfValues { first: [4; 32], second: None }), eval_by_credential: None }),
+                prf: s.prf.then(|| ctap2::extensions::AuthenticatorPrfInputs { eval: Some(ctap2::extensions::AuthenticatorPrfValues { first: [4; 32], second: None }), eval_by_credential: None }),
             });
             let params = s.algs.iter().map(|a| { use coset::iana::EnumI64; pk_param(coset::iana::Algorithm::from_i64(*a).unwrap()) }).collect();
-            let mut req = mc_request(s.rp, b"user-x", &[7u8; 32], params, exclude, ext, s.rk, s.up, s.uv);
+            let mut req = mc_request(s.rp, b"user-x", &vec![7u8; s.cdh_len], params, exclude, ext, s.rk, s.up, s.uv);
             if s.pin_auth {
                 req.pin_auth = Some(vec![1, 2].into());
             }
@@ -208,7 +218,7 @@ where
                 hmac_secret: None,
                 prf: Some(ctap2::extensions::AuthenticatorPrfInputs { eval: Some(ctap2::extensions::AuthenticatorPrfValues { first: [4; 32], second: Some([5; 32]) }), eval_by_credential: None }),
             });
-            let mut req = ga_request(s.rp, &[8u8; 32], allow, ext, s.up, s.uv);
+            let mut req = ga_request(s.rp, &vec![8u8; s.cdh_len], allow, ext, s.up, s.uv);
             if s.pin_auth {
                 req.pin_auth = Some(vec![1, 2].into());
             }
